@@ -142,7 +142,18 @@ func runSession(c J) J {
 	reprs := jarr(c, "reprs")
 	srcs := make([]string, len(progs))
 	hoisted := map[string]any{}
-	pr := newPrinter(spellFromJSON(nil))
+	spell := spellFromJSON(c["spell"])
+	pr := newPrinter(spell)
+	newEngine := func() *liquid.Engine {
+		e := liquid.NewEngine()
+		if spell.Raw != nil {
+			e.Delims(spell.Raw[0], spell.Raw[1], spell.Raw[2], spell.Raw[3])
+		}
+		if jbool(c, "strict") {
+			e.StrictVariables()
+		}
+		return e
+	}
 	for i, p := range progs {
 		s, err := pr.Template(p.([]any))
 		if err != nil {
@@ -181,7 +192,7 @@ func runSession(c J) J {
 		envAbs[j] = snapshotEnv(m)
 	}
 	obs["texts"] = srcs
-	eng := liquid.NewEngine()
+	eng := newEngine()
 	// sources registered through ParseTemplateAndCache (no file of that name exists)
 	for _, fx := range jarr(c, "cache") {
 		fa, _ := fx.([]any)
@@ -222,7 +233,7 @@ func runSession(c J) J {
 		res := guard(func() result {
 			e := eng
 			if jstr(op, "fresh") == "engine" {
-				e = liquid.NewEngine()
+				e = newEngine()
 			}
 			tpl, perr := tpls[t], parseErr[t]
 			if jstr(op, "fresh") != "" {
@@ -308,11 +319,18 @@ func runSession(c J) J {
 				}
 			}(w)
 		}
+		cold := newEngine() // a configured engine that has not parsed anything yet: its first parses happen concurrently
 		for g := 0; g < n; g++ {
 			wg.Add(1)
 			go func(g int) {
 				defer wg.Done()
 				<-start
+				func() {
+					defer func() { recover() }()
+					if tpl, err := cold.ParseString(srcs[g%len(srcs)]); err == nil {
+						tpl.RenderString(envs[g%len(envs)])
+					}
+				}()
 				for i := g; i < len(ops); i += n {
 					runOp(i, false)
 				}
